@@ -361,7 +361,12 @@ var nodeDefs = map[string]nodeDef{
 	"alertmod":   {"|alert()\n    .crit(lambda: count() %% %d == 0)\n    .levelField('o')", false, 1},
 	"sum":        {"|sum('v')\n    .as('o')", false, 0},
 	"count":      {"|count('v')\n    .as('o')", false, 0},
+	// modelled WITH the recorded sharing (finding nested-lambda-state-shared): a lambda var used as a nested lambda
+	// node keeps one ExecutionState for all groups; the outer expression's own count() is per group
+	"wherenested": {"|where(lambda: nl AND count() %% 2 == 1)", false, 0},
+	"evalnested":  {"|eval(lambda: nc * 1000 + count())\n    .as('o')", false, 0},
 	// opaque: stream
+	"alertnested": {"|alert()\n    .crit(lambda: nl)\n    .levelField('o')", false, 0},
 	"stateduration": {"|stateDuration(lambda: \"v\" > %d)\n    .as('o')\n    .unit(1s)", false, 1},
 	"derivative":    {"|derivative('v')\n    .unit(1s)\n    .as('o')", false, 0},
 	"derivativenn":  {"|derivative('v')\n    .unit(1s)\n    .nonNegative()\n    .as('o')", false, 0},
@@ -402,6 +407,16 @@ var nodeDefs = map[string]nodeDef{
 	"wincumsum":     {"|window()\n    .periodCount(%d)\n    .everyCount(%d)\n  |cumulativeSum('v')\n    .as('o')", true, 2},
 }
 
+// nodePre: var declarations placed before `stream` (lambda vars used as NESTED lambda nodes); they take p1, p2.
+var nodePre = map[string]struct {
+	pre   string
+	nargs int
+}{
+	"wherenested": {"var nl = lambda: count() %% %d == %d\n", 2},
+	"evalnested":  {"var nc = lambda: count()\n", 0},
+	"alertnested": {"var nl = lambda: count() > %d\n", 1},
+}
+
 func isoScript(t []string) (string, bool) {
 	// node <kind> <p1> <p2> <byName> <dims>
 	if len(t) < 6 {
@@ -417,6 +432,9 @@ func isoScript(t []string) (string, bool) {
 	dims := unescList(t[5])
 	sort.Strings(dims)
 	var b strings.Builder
+	if pre, ok := nodePre[t[1]]; ok {
+		b.WriteString(fmt.Sprintf(pre.pre, []interface{}{p1, p2}[:pre.nargs]...))
+	}
 	fmt.Fprintf(&b, "stream\n  |from()\n  |groupBy(%s)", groupByArgs(false, dims))
 	if t[4] == "1" {
 		b.WriteString("\n    .byMeasurement()")
